@@ -35,6 +35,7 @@ from . import dri
 from . import lexing
 from .lexing import BLANK_BYTES, WS_RULE_BYTES, in_set
 from . import C09, C12
+from ..replay import Scenario
 
 
 def rep(*words, **facts):
